@@ -43,6 +43,7 @@ PROP = {  # commit subject fragment -> (property, key)
  "ignore_methods had no effect": ("C27", "ignore-methods-for-methods"),
  "name mangling of private methods": ("C27", "name-mangling-guessed"),
  "incompatible generators for primitive": ("C26", "random-provider-primitive-requests"),
+ "only the owning thread stops the tracer on exit": ("C32", "abandoned-thread-stops-tracer-2"),
  "KeyError for a loop in dead code": ("C06", "dead-code-cycle"),
  "beyond chromosome_length": ("C15", "insertion-exceeds-chromosome-length"),
  "statements binding a lambda": ("C24", "seed-parser-drops-lambda-statements"),
